@@ -179,6 +179,25 @@ CORPUS = [
     N("c06-reflection-compare-raw", [(SP, """        if inbound_elem.to_bytes() == self.outbound_message:
             raise ReflectionThwarted""", """        if self.inbound_message == self.outbound_message:
             raise ReflectionThwarted""")], props=["C06"], note="raw comparison is equivalent given canonical decoding (C05 D2)"),
+    # ------------------------------------------------------------------ C12 group law
+    B("c12-add-d-not-doubled", ["C12"], [(ED, "    C = T1*(2*d)*T2 % Q\n", "    C = T1*d*T2 % Q\n")], tests="killed"),
+    B("c12-double-sign-H", ["C12"], [(ED, "    H = (D-B) % Q\n    X3 = (E*F) % Q\n    Y3 = (G*H) % Q\n    Z3 = (F*G) % Q\n    T3 = (E*H) % Q\n    return (X3, Y3, Z3, T3)\n\ndef add_elements",
+                                          "    H = (B-D) % Q\n    X3 = (E*F) % Q\n    Y3 = (G*H) % Q\n    Z3 = (F*G) % Q\n    T3 = (E*H) % Q\n    return (X3, Y3, Z3, T3)\n\ndef add_elements")], tests="killed"),
+    B("c12-add-wrong-modulus", ["C12"], [(ED, "    D = Z1*2*Z2 % Q\n", "    D = Z1*2*Z2 % L\n")], tests="killed"),
+    B("c12-dedicated-T3-dropped-factor", ["C12"], [(ED, "    Z3 = (F*G) % Q\n    T3 = (E*H) % Q\n    return (X3, Y3, Z3, T3)\n\ndef scalarmult_element(",
+                                                     "    Z3 = (F*G) % Q\n    T3 = (E*G) % Q\n    return (X3, Y3, Z3, T3)\n\ndef scalarmult_element(")], tests="killed"),
+    B("c12-element-add-uses-dedicated", ["C12"], [(ED, "        sum_XYTZ = add_elements(self.XYTZ, other.XYTZ)", "        sum_XYTZ = _add_elements_nonunfied(self.XYTZ, other.XYTZ)")], tests="killed",
+      note="P+P, P+(-P) and additions of torsion points are wrong"),
+    B("c12-safe-ladder-dedicated", ["C12", "C13"], [(ED, """    _ = double_element(scalarmult_element_safe_slow(pt, n>>1))
+    return add_elements(_, pt) if n&1 else _""", """    _ = double_element(scalarmult_element_safe_slow(pt, n>>1))
+    return _add_elements_nonunfied(_, pt) if n&1 else _""")]),
+    B("c12-scalarmult-not-reduced", ["C12"], [(ED, """        s = s % L
+        # scalarmult(s=0) gets you Zero""", """        s = abs(s)
+        # scalarmult(s=0) gets you Zero""")], tests="killed"),
+    B("c12-d-constant-wrong", ["C12"], [(ED, "d = -121665 * inv(121666)", "d = -121665 * inv(121665)")], tests="killed"),
+    N("c12-double-E-rewritten", [(ED, "    E = (J*J-A-B) % Q\n", "    E = (2*X1*Y1) % Q\n")]),
+    N("c12-drop-intermediate-reduction", [(ED, "    A = ((Y1-X1)*(Y2-X2)) % Q\n", "    A = ((Y1-X1)*(Y2-X2))\n")]),
+    N("c12-reorder-statements", [(ED, "    X3 = (E*F) % Q\n    Y3 = (G*H) % Q\n    T3 = (E*H) % Q\n    Z3 = (F*G) % Q\n", "    Z3 = (F*G) % Q\n    T3 = (E*H) % Q\n    Y3 = (G*H) % Q\n    X3 = (E*F) % Q\n")]),
     # ------------------------------------------------------------------ C16 isolation
     B("c16-blinding-cache-on-params", ["C16"], [(SP, """        pw_blinding = self.my_blinding().scalarmult(self.pw_scalar)
 """, """        cache = self.params.__dict__.setdefault("_blind_cache", {})
